@@ -367,6 +367,109 @@ template <size_t K> static void do_mrh(const Args& a, Out& o) {
 }
 
 // ------------------------------------------------------------------------------------------------
+// sources far outside [0,p): construction / assignment / conversion of both rmint variants and init of the rings
+// ------------------------------------------------------------------------------------------------
+// type codes of machine-word sources: 0 int8 1 int16 2 int32 3 int64 4 uint8 5 uint16 6 uint32 7 uint64 8 double (integer-valued)
+template <class F> static bool with_word(unsigned t, const mpz_class& v, F&& f) {
+    long long sv = v.fits_slong_p() ? v.get_si() : 0;
+    unsigned long long uv = (v >= 0 && v.fits_ulong_p()) ? v.get_ui() : 0;
+    switch (t) {
+        case 0: if (v < INT8_MIN || v > INT8_MAX) return false; f((int8_t)sv); return true;
+        case 1: if (v < INT16_MIN || v > INT16_MAX) return false; f((int16_t)sv); return true;
+        case 2: if (v < INT32_MIN || v > INT32_MAX) return false; f((int32_t)sv); return true;
+        case 3: if (!v.fits_slong_p()) return false; f((int64_t)sv); return true;
+        case 4: if (v < 0 || v > UINT8_MAX) return false; f((uint8_t)uv); return true;
+        case 5: if (v < 0 || v > UINT16_MAX) return false; f((uint16_t)uv); return true;
+        case 6: if (v < 0 || v > UINT32_MAX) return false; f((uint32_t)uv); return true;
+        case 7: if (v < 0 || !v.fits_ulong_p()) return false; f((uint64_t)uv); return true;
+        case 8: { double d = v.get_d(); if (mpz_class(d) != v) return false; f(d); return true; }
+        default: return false;
+    }
+}
+// rmr K p c = (c ANY value of ruint<K>)  ctor from ruint: rawMGA outMGA valMGI   assignment from ruint: …
+//             ctor from rint<K> (the same word read in two's complement): …   assignment from rint: …
+//             reduction(t, c): MGA MGI    reduction(t) with t.Value = c: MGI MGA
+template <size_t K> static void do_rmr(const Args& a, Out& o) {
+    typedef RecInt::ruint<K> E;
+    set_modulus<K>(Zarg(a, 1));
+    E c = toR<K>(Zarg(a, 2));
+    RecInt::rint<K> s(c);
+    auto emit = [&](const GA& x, const GI& y) { put<K>(o, x.Value); put<K>(o, RecInt::get_ruint(x)); put<K>(o, y.Value); };
+    { GA x(c); GI y(c); emit(x, y); }
+    { GA x; GI y; x = c; y = c; emit(x, y); }
+    { GA x(s); GI y(s); emit(x, y); }
+    { GA x; GI y; x = s; y = s; emit(x, y); }
+    { GA t; GI u; RecInt::reduction(t, c); RecInt::reduction(u, c); put<K>(o, t.Value); put<K>(o, u.Value); }
+    { GI u; u.Value = c; RecInt::reduction(u); put<K>(o, u.Value); GA t; t.Value = c; RecInt::reduction(t); put<K>(o, t.Value); }
+}
+// rmw K p t v = (v a machine word of type t)  ctor: rawMGA outMGA valMGI   assignment: rawMGA outMGA valMGI
+template <size_t K> static void do_rmw(const Args& a, Out& o) {
+    set_modulus<K>(Zarg(a, 1));
+    unsigned t = (unsigned)a.W(2);
+    auto emit = [&](const GA& x, const GI& y) { put<K>(o, x.Value); put<K>(o, RecInt::get_ruint(x)); put<K>(o, y.Value); };
+    bool ok = with_word(t, Zarg(a, 3), [&](auto w) {
+        { GA x(w); GI y(w); emit(x, y); }
+        { GA x; GI y; x = w; y = w; emit(x, y); }
+    });
+    if (!ok) o.raw("RANGE");
+}
+// rmz K p v = (v ANY integer)  mpz_to_rmint: rawMGA outMGA valMGI   rmint_to_mpz: MGA MGI
+template <size_t K> static void do_rmz(const Args& a, Out& o) {
+    set_modulus<K>(Zarg(a, 1));
+    mpz_class v = Zarg(a, 2);
+    GA x; GI y;
+    RecInt::mpz_to_rmint(x, v); RecInt::mpz_to_rmint(y, v);
+    put<K>(o, x.Value); put<K>(o, RecInt::get_ruint(x)); put<K>(o, y.Value);
+    mpz_class m1, m2;
+    RecInt::rmint_to_mpz(m1, x); RecInt::rmint_to_mpz(m2, y);
+    put(o, m1); put(o, m2);
+}
+// rmq K p a c = (a residue, c int64)  (A == c) MGA  MGI   (A == ruint(c)) MGA MGI   [second pair 0 0 when c < 0]
+template <size_t K> static void do_rmq(const Args& a, Out& o) {
+    typedef RecInt::ruint<K> E;
+    set_modulus<K>(Zarg(a, 1));
+    E ua = toR<K>(Zarg(a, 2));
+    int64_t c = (int64_t)a.SW(3);
+    GA A(ua); GI a_(ua);
+    putu(o, (A == c) ? 1 : 0); putu(o, (a_ == c) ? 1 : 0);
+    if (c >= 0) { E uc((uint64_t)c); putu(o, (A == uc) ? 1 : 0); putu(o, (a_ == uc) ? 1 : 0); } else { putu(o, 0); putu(o, 0); }
+}
+// mrz K p v = (v ANY integer)  Montgomery<ruint<K>>::init(Integer): raw conv   convert into an Integer
+template <size_t K> static void do_mrz(const Args& a, Out& o) {
+    typedef RecInt::ruint<K> E;
+    MR<K> F(toR<K>(Zarg(a, 1)));
+    Integer I; mpz_set_str(I.get_mpz(), a.s(2).c_str(), 16);
+    E r, w; F.init(r, I); F.convert(w, r);
+    put<K>(o, r); put<K>(o, w);
+    Integer back; F.convert(back, r); o.raw(vp::hex(back.get_mpz_const()));
+}
+// mrw K p t v = init from a machine word (t = 0…8), from ANY ruint<K> (t = 9) or ANY rint<K> (t = a, v the two's-complement word): raw conv
+template <size_t K> static void do_mrw(const Args& a, Out& o) {
+    typedef RecInt::ruint<K> E;
+    MR<K> F(toR<K>(Zarg(a, 1)));
+    unsigned t = (unsigned)a.W(2);
+    mpz_class v = Zarg(a, 3);
+    E r, w;
+    bool ok = true;
+    if (t == 9) { F.init(r, toR<K>(v)); }
+    else if (t == 10) { RecInt::rint<K> s(toR<K>(v)); F.init(r, s); }
+    else ok = with_word(t, v, [&](auto x) { F.init(r, x); });
+    if (!ok) { o.raw("RANGE"); return; }
+    F.convert(w, r);
+    put<K>(o, r); put<K>(o, w);
+}
+// m32u p v = init(uint64_t v), any v: raw conv        m32z p v = init(Integer v), any v: raw conv
+static void do_m32u(const Args& a, Out& o) {
+    M32 F((uint32_t)a.W(0));
+    uint32_t r, w; F.init(r, (uint64_t)a.W(1)); F.convert(w, r); putu(o, r); putu(o, w);
+}
+static void do_m32z(const Args& a, Out& o) {
+    M32 F((uint32_t)a.W(0));
+    Integer I; mpz_set_str(I.get_mpz(), a.s(1).c_str(), 16);
+    uint32_t r, w; F.init(r, I); F.convert(w, r); putu(o, r); putu(o, w);
+}
+
+// ------------------------------------------------------------------------------------------------
 // dispatch
 // ------------------------------------------------------------------------------------------------
 template <size_t K> static bool dispatchK(const std::string& key, const Args& a, Out& o) {
@@ -382,6 +485,12 @@ template <size_t K> static bool dispatchK(const std::string& key, const Args& a,
     else if (key == "rmx") do_rmx<K>(a, o);
     else if (key == "rmxd") do_rmxd<K>(a, o);
     else if (key == "mrh") do_mrh<K>(a, o);
+    else if (key == "rmr") do_rmr<K>(a, o);
+    else if (key == "rmw") do_rmw<K>(a, o);
+    else if (key == "rmz") do_rmz<K>(a, o);
+    else if (key == "rmq") do_rmq<K>(a, o);
+    else if (key == "mrz") do_mrz<K>(a, o);
+    else if (key == "mrw") do_mrw<K>(a, o);
     else return false;
     return true;
 }
@@ -397,6 +506,8 @@ static void process(const Args& a) {
         else if (key == "m32d") do_m32d(a, o);
         else if (key == "m32i") do_m32i(a, o);
         else if (key == "m32h") do_m32h(a, o);
+        else if (key == "m32u") do_m32u(a, o);
+        else if (key == "m32z") do_m32z(a, o);
         else {
             unsigned long long K = a.W(0);
             switch (K) {
@@ -433,6 +544,69 @@ struct Gen {
     }
     static std::string H(unsigned long long v) { return vp::hex_ull(v); }
     static std::string HS(long long v) { return vp::hex_ll(v); }
+
+    // ---------------- sources of every magnitude class (construction / assignment / conversion)
+    static std::string HZ(const mpz_class& v) { return vp::hex(v.get_mpz_t()); }
+    // magnitude classes relative to p, bounded by `top` (inclusive): 0, p-1, p, p+1, 2p-1, 2p, 2p+1, k·p±1 for the largest k, a middle k
+    std::vector<mpz_class> magnitudes(const mpz_class& p, const mpz_class& top) {
+        std::vector<mpz_class> v = {0, 1, p - 1, p, p + 1, 2 * p - 1, 2 * p, 2 * p + 1, 3 * p, 1003};
+        mpz_class k = top / p;
+        if (k > 2) { v.push_back(k * p - 1); v.push_back(k * p); if (k * p + 1 <= top) v.push_back(k * p + 1); }
+        if (k > 5) { mpz_class j = 2 + mpz_class(H(rng.next()), 16) % (k - 2); v.push_back(j * p - 1); v.push_back(j * p + 1); v.push_back(j * p); }
+        v.push_back(top); v.push_back(top - 1); v.push_back(top / 2); v.push_back(top / 2 + 1); v.push_back(top / 2 + 2);
+        std::vector<mpz_class> out;
+        for (auto& x : v) if (x >= 0 && x <= top) out.push_back(x);
+        return out;
+    }
+    void genSources(size_t K, const mpz_class& p, bool full) {
+        const std::string P = H(K) + " " + hx(p);
+        const size_t W = (size_t)1 << K;
+        const mpz_class R = mpz_class(1) << W;
+        // every value class of ruint<K>; the same words read as rint<K> cover both signs and the minimum
+        std::vector<mpz_class> cs = magnitudes(p, R - 1);
+        for (const mpz_class& m : magnitudes(p, R / 2)) if (m > 0) cs.push_back(R - m);      // small negative rint values / large ruint values
+        cs.push_back(limb_structured(W / 64) % R);
+        cs.push_back(rnd_bits(W));
+        for (const mpz_class& c : cs) {
+            line("rmr " + P + " " + hx(c));
+            line("mrw " + P + " 9 " + hx(c));
+            line("mrw " + P + " a " + hx(c));
+        }
+        // machine words of every type
+        static const char* lo[] = {"-80", "-8000", "-80000000", "-8000000000000000", "0", "0", "0", "0", "-20000000000000"};
+        static const char* hi[] = {"7f", "7fff", "7fffffff", "7fffffffffffffff", "ff", "ffff", "ffffffff", "ffffffffffffffff", "20000000000000"};
+        for (unsigned t = 0; t <= 8; ++t) {
+            if (!full && (t + p.get_ui()) % 3 != 0 && t != 2 && t != 3 && t != 7) continue;
+            mpz_class L(lo[t], 16), Hh(hi[t], 16);
+            std::vector<mpz_class> ws = magnitudes(p, Hh);
+            if (L < 0) for (const mpz_class& m : magnitudes(p, -L)) if (m > 0) ws.push_back(-m);
+            if (t == 8) { ws.push_back(mpz_class(1) << 62); ws.push_back(-(mpz_class(1) << 63)); }
+            for (const mpz_class& w : ws) {
+                if (w < L && t != 8) continue;
+                line("rmw " + P + " " + H(t) + " " + HZ(w));
+                line("mrw " + P + " " + H(t) + " " + HZ(w));
+            }
+        }
+        // big integers of both signs, beyond the radix
+        std::vector<mpz_class> zs = magnitudes(p, R * R * 4 + 12345);
+        zs.push_back(R); zs.push_back(R + 5); zs.push_back(R - 1); zs.push_back(R * R); zs.push_back((R << 70) + 7);
+        zs.push_back(limb_structured(W / 64 * 3));
+        const size_t nz = zs.size();
+        for (size_t i = 0; i < nz; ++i) zs.push_back(-zs[i]);
+        for (const mpz_class& z : zs) {
+            line("rmz " + P + " " + HZ(z));
+            line("mrz " + P + " " + HZ(z));
+        }
+        // equality with a scalar
+        if (p.fits_slong_p() && p < (mpz_class(1) << 60)) {
+            long long q = p.get_si();
+            long long as[] = {0, 1, q - 1, (long long)(rng.next() % (unsigned long long)q)};
+            for (long long x : as) {
+                long long cand[] = {x, x + 1, (x + 1) % q, x + q, x - q, x + 2 * q, -x, q, 0, -q};
+                for (long long c : cand) line("rmq " + P + " " + H((unsigned long long)x) + " " + HS(c));
+            }
+        }
+    }
 
     // ---------------- histories
     std::string history(size_t len) {
@@ -529,6 +703,14 @@ struct Gen {
             }
             vs.push_back((long long)rng.below(p));
             for (long long v : vs) line("m32i " + P + " " + HS(v));
+            if (edge || (thorough ? (p >> 1) % 4 == 3 : (p >> 1) % 32 == 3)) {   // sources of init far outside [0,p)
+                unsigned long long us[] = {0xffffffffffffffffULL, 0x8000000000000000ULL, 0x8000000000000001ULL, 0xffffffffULL, 0x100000000ULL,
+                                           (unsigned long long)p * 2 + 1, (0xffffffffffffffffULL / p) * p, (0xffffffffffffffffULL / p) * p - 1, rng.next()};
+                for (unsigned long long u : us) line("m32u " + P + " " + H(u));
+                mpz_class big = (mpz_class(1) << 200) + 7, kp = mpz_class(p) * mpz_class(H(rng.next()), 16) * mpz_class(H(rng.next()), 16);
+                mpz_class zs[] = {big, -big, kp, kp + 1, kp - 1, -kp, -kp - 1, mpz_class(1) << 64, -(mpz_class(1) << 63), -(mpz_class(1) << 64) - 1};
+                for (const mpz_class& z : zs) line("m32z " + P + " " + HZ(z));
+            }
             {   // histories: short ones exhaustively often, long ones sampled
                 size_t nh = edge ? 6 : (thorough ? 3 : ((p >> 1) % 4 == 0 ? 1 : 0));
                 for (size_t i = 0; i < nh; ++i) {
@@ -603,10 +785,17 @@ struct Gen {
     void genR(size_t K) {
         const std::string Ks = H(K);
         const size_t W = (size_t)1 << K;
+        size_t pidx = 0;
         for (const mpz_class& p : moduli(K)) {
             const std::string P = Ks + " " + hx(p);
             line("mrk " + P);
             line("rmk " + P);
+            {   // sources far outside [0,p): small, medium and maximal moduli
+                const bool small = p < 1024, maximal = mpz_sizeinbase(p.get_mpz_t(), 2) + 1 >= W;
+                if (thorough ? (small || maximal || pidx % 4 == 0) : (p < 64 || (maximal && pidx % 3 == 0) || pidx % 16 == 0))
+                    genSources(K, p, (thorough && pidx % 3 == 0) || p < 16 || pidx % 32 == 0);
+                ++pidx;
+            }
             std::vector<mpz_class> rs = residues(p, K, thorough ? 5 : 3);
             const size_t n = rs.size();
             size_t nt = thorough ? 14 : 8;
